@@ -329,5 +329,33 @@ impl BlockBuilder {
     }
 }
 
+// ---------- SstBuilder: sort-order guard and the metadata it accumulates ----------
+#[verifier::external_body]
+struct SstBuilderRest { _p: u8 }
+// only the fields the two kernels touch (the real struct also owns the output file, the open block, ...)
+struct SstBuilder { last_key: Vec<u8>, last_timestamp: u64, smallest_timestamp: u64, biggest_timestamp: u64, rest: SstBuilderRest }
+
+impl SstBuilder {
+// builders reject out-of-order input with an error instead of writing it
+//@ extract sst/src/lib.rs | impl SstBuilder :: fn enforce_sort_order
+//@ ret r
+//@ post <<
+        r is Ok <==> entry_lt(old(self).last_key@, old(self).last_timestamp, key@, timestamp),
+        final(self).last_key == old(self).last_key, final(self).last_timestamp == old(self).last_timestamp,
+        final(self).smallest_timestamp == old(self).smallest_timestamp, final(self).biggest_timestamp == old(self).biggest_timestamp,
+//@ >>
+//@ end
+
+// metadata clause: smallest/biggest timestamp are the running min/max of every timestamp accepted;
+// the last key/timestamp are exactly the entry just accepted
+//@ extract sst/src/lib.rs | impl SstBuilder :: fn assign_last_key
+//@ post <<
+        final(self).last_key@ == key@, final(self).last_timestamp == timestamp,
+        final(self).smallest_timestamp == (if old(self).smallest_timestamp > timestamp { timestamp } else { old(self).smallest_timestamp }),
+        final(self).biggest_timestamp == (if old(self).biggest_timestamp < timestamp { timestamp } else { old(self).biggest_timestamp }),
+//@ >>
+//@ end
+}
+
 } // verus!
 fn main() {}
